@@ -27,7 +27,7 @@ RULE = ('seeded histories with time/space bias in {0.2, 0.5, 0.8} on all '
 W = {'bisect': 10, 'uniform': 0.2, 'uniform_space': 0.3, 'dorfler_iso': 0.3,
      'dorfler_aniso': 0.5, 'grading': 1.0}
 TIERS = {
-    'quick': {'runs': 2000, 'budget_s': 150, 'leaf_cap': 400, 'max_ops': 60,
+    'quick': {'runs': 5000, 'budget_s': 150, 'leaf_cap': 400, 'max_ops': 60,
               'weights': W, 'tail': ['grading'], 'p_short': 0.4,
               'wall_cap': 300},
     'thorough': {'runs': 60000, 'budget_s': 1500, 'leaf_cap': 1500,
